@@ -38,8 +38,10 @@ def run(pid, tier, seed, replay=None):
     ctx.pid, ctx.tier, ctx.seed = pid, tier, seed
     ctx.rng = C.rng_for(seed, pid)
     ctx.timer = C.Timer(prop.budget.get(tier, 600))
-    ctx.known = [f for f in C.load_known().get("findings", []) if f["property"] == pid]
-    ctx.fixed = [f for f in C.load_known().get("fixed", []) if f["property"] == pid]
+    def mine(f):
+        return f.get("property") == pid or pid in f.get("properties", [])
+    ctx.known = [f for f in C.load_known().get("findings", []) if mine(f)]
+    ctx.fixed = [f for f in C.load_known().get("fixed", []) if mine(f)]
 
     if replay:
         data = json.load(open(replay))
